@@ -50,3 +50,21 @@ Proof.
   intros size d HS. assert (size =? 8 = false) as -> by (apply Z.eqb_neq; lia). cbn [orb].
   rewrite andb_true_iff, Z.leb_le, Z.ltb_lt. tauto.
 Qed.
+
+(* ------------------------------------------------------------------ non-vacuity: an instance, and the hypothesis is needed *)
+Definition ex_state : state := set_labels init [Some (1%nat, 100); Some (1%nat, 40)].
+Definition ex_entry (size : Z) : reloc :=
+  {| rl_type := Expr 0 1; rl_sec := 0; rl_off := 8; rl_lead := 0; rl_size := size; rl_trail := 0; rl_payload := 0; rl_target := None;
+     rl_label := 0; rl_addend := 0 |}.
+
+Example delta_entry_effect_instance :
+  exists o, relocate_entry 65536 8 0 [] (entry_of_reloc ex_state [0; 4096] (ex_entry 1)) = inl (o, []) /\
+            le_split 1 (o_word o) = [60] /\ delta_bytes 1 (100 - 40) = [60].
+Proof. eexists. split; [vm_compute; reflexivity|]. split; reflexivity. Qed.
+
+(* a difference outside the field's signed range (label 0 at 300: 260 does not fit one byte): relocation refuses the entry - as the
+   immediate path refuses the call (ODeltaChecked: kInvalidDisplacement) *)
+Example delta_entry_out_of_range :
+  relocate_entry 65536 8 0 [] (entry_of_reloc (set_labels init [Some (1%nat, 300); Some (1%nat, 40)]) [0; 4096] (ex_entry 1)) = inr RInvalidEntry /\
+  snd (step (set_labels init [Some (1%nat, 300); Some (1%nat, 40)]) (ODeltaChecked 0 1 1)) = EInvalidDisp.
+Proof. split; vm_compute; reflexivity. Qed.
